@@ -30,7 +30,8 @@ Inductive fbody :=
 | BSet (n : name)            (* (defn f [v ..] (set n v))  plain symbol, first parameter *)
 | BDot (p : list name)       (* (defn f [..] (let [t a.b.c] t)) dot path read from inside *)
 | BDotSet (p : list name)    (* (defn f [v ..] (set a.b.c v))   dot path write from inside, first parameter *)
-| BDotCall (p : list name) (cargs : list Z).  (* (defn f [..] (a.b.F cargs)) call through a dot path from inside *)
+| BDotCall (p : list name) (cargs : list Z)
+| BClear (n : name).         (* (defn f [..] (set n nil))     plain symbol set back to nil *)  (* (defn f [..] (a.b.F cargs)) call through a dot path from inside *)
 
 Inductive val :=
 | VNull
@@ -263,27 +264,37 @@ Definition run_body_simple (h : heap) (params : list name) (body : fbody) (clos 
               | Some (v, _) => Ok (h, v) | None => Err ENotFoundSym end
   | BSet n => let v := match args with a :: _ => a | [] => VNull end in
               Ok (lexical_set h frame clos n v, v)
+  | BClear n => Ok (lexical_set h frame clos n VNull, VNull)
   | BDot p => dot_get_set h frame clos p None
   | BDotSet p => let v := match args with a :: _ => a | [] => VNull end in
                  dot_get_set h frame clos p (Some v)
-  | BDotCall _ _ => Err ENotFun      (* nesting of inside calls deeper than one is not generated *)
+  | BDotCall _ _ => Err ENotFun
   end.
 
 (* the head of a dot path written inside a function is resolved in THAT function's lexical context
-   (its parameters, then the scopes captured at its definition) -- never in the caller's *)
-Definition run_body (h : heap) (params : list name) (body : fbody) (clos : list nat) (args : list val)
-  : res (heap * val) :=
+   (its parameters, then the scopes captured at its definition) -- never in the caller's; the callee
+   is the value the path yields -- the NAME of the calling function plays no role (a facade
+   (defn Scale [x] (inner.Scale x)) calls the member, not itself).  fuel bounds the nesting of such
+   calls (a cycle of facades does not terminate in the interpreter either). *)
+Fixpoint run_body (fuel : nat) (h : heap) (params : list name) (body : fbody) (clos : list nat) (args : list val)
+  {struct fuel} : res (heap * val) :=
   match body with
   | BDotCall p cargs =>
-    match dot_get_set h (zip_params params args) clos p None with
-    | Err e => Err e
-    | Ok (_, VFun _ params' body' clos') =>
-      if Nat.eqb (length params') (length cargs)      (* "F expected n arguments, got m" *)
-      then run_body_simple h params' body' clos' (map VInt cargs) else Err ENotFun
-    | Ok (_, v) => match cargs with [] => Ok (h, v) | _ => Err ENotFun end
+    match fuel with
+    | O => Err EFuel
+    | S fuel' =>
+      match dot_get_set h (zip_params params args) clos p None with
+      | Err e => Err e
+      | Ok (_, VFun _ params' body' clos') =>
+        if Nat.eqb (length params') (length cargs)      (* "F expected n arguments, got m" *)
+        then run_body fuel' h params' body' clos' (map VInt cargs) else Err ENotFun
+      | Ok (_, v) => match cargs with [] => Ok (h, v) | _ => Err ENotFun end
+      end
     end
   | _ => run_body_simple h params body clos args
   end.
+
+Definition call_fuel : nat := 24.
 
 (* (a.b.F args) evaluated in a lexical context (frame = parameters of an enclosing caller, if any):
    resolve the callee through the path (privacy applies to the function's name), then run its body
@@ -293,7 +304,7 @@ Definition call_path (h : heap) (frame : list (name * val)) (stack : list nat) (
   match dot_get_set h frame stack path None with
   | Err e => Err e
   | Ok (_, VFun _ params body clos) =>
-    if Nat.eqb (length params) (length args) then run_body h params body clos args else Err ENotFun
+    if Nat.eqb (length params) (length args) then run_body call_fuel h params body clos args else Err ENotFun
   | Ok (_, v) => match args with [] => Ok (h, v) | _ => Err ENotFun end
   end.
 
@@ -303,7 +314,8 @@ Inductive decl :=
 | DFun (params : list name) (body : fbody)         (* (defn <member name> [params] body) *)
 | DHash (kvs : list (name * decl))                 (* (hash k:v ...) *)
 | DPkg (pname : name) (members : list (name * decl)) (* (package "pname" { members }) *)
-| DRef (path : list name).                         (* the value of an existing symbol / dot path *)
+| DRef (path : list name)                          (* the value of an existing symbol / dot path *)
+| DNil.                         (* the value of an existing symbol / dot path *)
 
 Definition alloc (h : heap) (o : obj) : heap * nat := (h ++ [o], length h).
 
@@ -339,6 +351,7 @@ Fixpoint build_val (h : heap) (stack : list nat) (self : name) (d : decl) {struc
     | Err e => Err e
     | Ok h1 => Ok (h1, VStack true pn stack')       (* PopScopeTransferToDataStackInstr *)
     end
+  | DNil => Ok (h, VNull)
   | DRef path =>
     match dot_get_set h [] stack path None with
     | Err e => Err e
@@ -364,18 +377,28 @@ Inductive op :=
 | OpGet (path : list name)
 | OpSet (path : list name) (z : Z)
 | OpCall (path : list name) (args : list Z)
-(* (defn wr [param] (path args)) (wr argsym): the call is made by a caller whose parameter is bound *)
-| OpCallVia (param : name) (argsym : name) (path : list name) (args : list Z).
+(* (defn wname [param] (path args)) (wname argsym): the call is made, in tail position, by a global
+   function (which may carry the same name as the member it calls) whose parameter is bound *)
+| OpCallVia (wname : name) (param : name) (argsym : name) (path : list name) (args : list Z)
+(* {target = source} / (set target source) / (= target source): the right-hand side is a dot path *)
+| OpSetFrom (target source : list name).
 
 Definition run_op (h : heap) (o : op) : res (heap * val) :=
   match o with
   | OpGet p => dot_get_set h [] [0%nat] p None
   | OpSet p z => dot_get_set h [] [0%nat] p (Some (VInt z))
   | OpCall p args => call_path h [] [0%nat] p (map VInt args)
-  | OpCallVia param argsym p args =>
-    match stack_lookup h [0%nat] argsym with
+  | OpCallVia wname param argsym p args =>
+    let h1 := scope_set h 0 wname (VFun wname [param] (BDotCall p args) [0%nat]) in
+    match stack_lookup h1 [0%nat] argsym with
     | None => Err ENotFoundSym
-    | Some (v, _) => call_path h [(param, v)] [0%nat] p (map VInt args)
+    | Some (v, _) => call_path h1 [(param, v)] [0%nat] p (map VInt args)
+    end
+  | OpSetFrom target source =>
+    (* vm.go UpdateInstr / functions.go AssignmentFunction: RValue of the right-hand side first *)
+    match dot_get_set h [] [0%nat] source None with
+    | Err e => Err e
+    | Ok (_, v) => dot_get_set h [] [0%nat] target (Some v)
     end
   end.
 
